@@ -322,6 +322,16 @@ func (w *World) Sync(topic string) {
 	}
 }
 
+// SyncLow is Sync through the low-priority channel (the one asynchronous Send(msg,false) uses), so that
+// everything sent asynchronously before has been handled.
+func (w *World) SyncLow(topic string) {
+	c := w.Q.Client()
+	m := c.NewMessage(topic, types.EventIsSync, nil)
+	if c.Send(m, false) == nil {
+		_, _ = c.WaitTimeout(m, 120*time.Second)
+	}
+}
+
 func (w *World) handleBlockchain(c queue.Client, m *queue.Message) {
 	w.mu.Lock()
 	defer w.mu.Unlock()
